@@ -86,6 +86,21 @@ pub fn chain(n: usize, bits: &[usize]) -> Vec<u64> {
     out
 }
 
+/// like `chain`, but with the SMALLEST primes of each bit size (just above 2^(bits-1)): the bit
+/// length of the product is then smaller than the sum of the bit lengths
+pub fn chain_low(n: usize, bits: &[usize]) -> Vec<u64> {
+    let mut used: Vec<u64> = vec![];
+    let mut out = vec![];
+    for &b in bits {
+        let cnt = bits.iter().filter(|&&x| x == b).count();
+        let cands = crate::refmodel::bigu::primes_1_mod_low(2 * n as u64, b, cnt);
+        let p = *cands.iter().find(|p| !used.contains(p)).unwrap();
+        used.push(p);
+        out.push(p);
+    }
+    out
+}
+
 /// Deterministic environment for one case: entropy script derived from (seed, tag), noise script.
 pub fn env(seed: u64, tag: u64, ternary: NoiseMode, error: NoiseMode) {
     let mut base = [0u8; 32];
